@@ -46,7 +46,8 @@ ASSUMPTIONS = [
     "a listing row is an output line that splits on box-drawing column separators into exactly seven integer cells (or "
     "seven '...' cells for the ellipsis row)",
     "the XTCE definition given to 'parse' is the seven CCSDS header fields (committed as models/header_only.xml); every "
-    "packet carries a unique SRC_SEQ_CTR so 'shows that packet' means exactly that counter and no other appears",
+    "packet carries a unique SRC_SEQ_CTR (except in the repeated-packet files, where some or all packets are byte-identical "
+    "and rows are attributable by position only) so 'shows that packet' means exactly that counter and no other appears",
     "negative packet indices and files over 60 packets are not generated",
     "torn files: the listing must equal the reference framing of the bytes present; termination and absence of a "
     "traceback are required on every file",
@@ -54,7 +55,7 @@ ASSUMPTIONS = [
     "temp file with identical content is read instead; the row oracle is unaffected",
 ]
 EXPECTED_PROBES = ("sim_disk_used", "n_eq_0", "n_eq_10", "n_eq_11", "index_eq_n", "index_gt_n", "index_last", "torn_tail",
-                   "short_raw_read", "listing_elided", "listing_full")
+                   "short_raw_read", "listing_elided", "listing_full", "repeated_packet")
 
 XTCE_PATH = os.path.join(os.path.dirname(os.path.dirname(os.path.abspath(__file__))), "models", "header_only.xml")
 
@@ -106,6 +107,7 @@ def run(ch, render=False):
         bufsize = 8192
         short_mode = "full"
         hdr_seed = 0
+        repeat = "unique"
     else:
         n = ch.weighted([(10, None), (1, 20), (1, 60)], "n_kind")
         n = ch.draw(N_SWEEP + 1, "n") if n is None else 11 + ch.draw(n - 10, "n_big")
@@ -116,6 +118,7 @@ def run(ch, render=False):
         bufsize = ch.pick((8192, 1, 7, 16, 4096, 100), "bufsize")
         short_mode = ch.pick(("full", "drawn", "one"), "short")
         hdr_seed = ch.draw(1 << 16, "hdr_seed")
+        repeat = ch.weighted([(3, "unique"), (1, "some_repeats"), (1, "all_identical")], "repeat")
 
     # ---- the recorder writes n packets with unique counters -----------------------------------
     c0 = (hdr_seed * 37) % 16384 if hdr_seed else 500
@@ -128,6 +131,14 @@ def run(ch, render=False):
         else:
             version, type_, shf, apid, flags, dlen = 0, 0, 0, 100 + j, 3, 3
         pkts.append(factory.build_packet(version, type_, shf, apid, flags, (c0 + j) % 16384, payload(hdr_seed + 99 + j, dlen)))
+        # byte-identical packets are legal (idle / fill / retransmitted packets): rows are then attributable by
+        # position only, and the listing must still show every one of them
+        if repeat == "all_identical" and j:
+            pkts[j] = pkts[0]
+            w.probe("repeated_packet")
+        elif repeat == "some_repeats" and j and ch.chance(1, 2, "rep"):
+            pkts[j] = pkts[ch.draw(j, "rep_of")]
+            w.probe("repeated_packet")
     parts = []
     for p in pkts:
         if k:
